@@ -420,8 +420,52 @@ def _table_driven_accessors(ctx, rule, P, g, Og, fns, lines, detail):
     return True
 
 
+def r6(ctx):
+    rule = "C15.R6"
+    ctx.rule(rule, "an absent upper bound means MAX: wherever a guard of the width cascade of asn_fixed_integer_to_rust_type looks at the "
+                   "upper bound through a fallback (unwrap_or / unwrap_or_default of range.max()), the fallback is i64::MAX - with 0, "
+                   "INTEGER (1..MAX) is mapped to u8 with the range 1..0 and values the ASN.1 type permits cannot be stored")
+    P = ctx.program()
+    bs = [b for b in P.find("asn1rs_model", "::asn_fixed_integer_to_rust_type") if b.def_kind == "AssocFn"]
+    if len(bs) != 1:
+        ctx.fail(rule, "anchor-lost:asn_fixed_integer_to_rust_type", "matched %d bodies" % len(bs))
+        return
+    b = bs[0]
+    O = X.Origins(b, P)
+    bounds = {bd for side in CASCADE.values() for bd, _, _ in side}
+    n = 0
+    for c in F.comparisons(b, O):
+        if c.switch_bb is None or c.kind != "b" or c.rhs != "" or c.boundary not in bounds or c.lex is None:
+            continue
+        fallbacks = []
+        direct = False
+        for e in X.walk(c.lex):
+            if e[0] == "unwrap_or" and "Range::max(" in X.render(e[1]):
+                fallbacks.append(F.rd(e[2]))
+            elif e[0] == "call" and X.last_seg(e[1] or "") == "unwrap_or_default" and e[3] and "Range::max(" in X.render(e[3][0]):
+                fallbacks.append("0")
+            elif e[0] == "call" and X.last_seg(e[1] or "") in ("unwrap_or_else", "map_or", "map_or_else") and e[3] \
+                    and "Range::max(" in X.render(e[3][0]):
+                fallbacks.append("?" + X.last_seg(e[1]))
+            elif e[0] in ("downcast",) and "Range::max(" in X.render(e[1]):
+                direct = True
+        if not fallbacks and not direct:
+            continue
+        n += 1
+        key = "guard<%d#upper-bound-fallback" % c.boundary
+        detail = {"guard": c.raw[:200], "at": c.loc, "fallbacks_of_the_upper_bound": fallbacks}
+        bad = [f for f in fallbacks if f != str(2 ** 63 - 1)]
+        if bad:
+            ctx.fail(rule, key, "the guard with boundary %d looks at the upper bound with the fallback `%s` instead of i64::MAX: a range that "
+                                "is open at the top is mapped to a type that is too narrow" % (c.boundary, bad[0]), c.loc, detail)
+        else:
+            ctx.ok(rule, key, detail)
+    ctx.floor(rule, n, "C15.R6.guards")
+
+
 def run(ctx):
     r1(ctx)
     r2_r4(ctx)
     r3(ctx)
     r5(ctx)
+    r6(ctx)
